@@ -22,6 +22,36 @@
 
 namespace rlbox {
 
+namespace detail {
+  // Assigning a tainted / tainted_volatile value to a field of type T: if either
+  // side is a function pointer (or an array of them), both have to be, and of
+  // assignable types. Looking only at is_assignable is not enough, as a pointer
+  // converts to bool, and looking only at T misses arrays.
+  template<typename T, typename T_Rhs, typename T_Enable = void>
+  struct tainted_func_ptr_assignment_mismatch : std::false_type
+  {};
+
+  template<typename T, typename T_Rhs>
+  struct tainted_func_ptr_assignment_mismatch<
+    T,
+    T_Rhs,
+    std::enable_if_t<rlbox_is_tainted_v<T_Rhs> ||
+                     rlbox_is_tainted_volatile_v<T_Rhs>>>
+  {
+    using T_LhsEl = std::remove_all_extents_t<std_array_to_c_arr_t<T>>;
+    using T_RhsEl = std::remove_all_extents_t<
+      std_array_to_c_arr_t<rlbox_remove_wrapper_t<T_Rhs>>>;
+    static constexpr bool value =
+      (is_func_ptr_v<T_LhsEl> || is_func_ptr_v<T_RhsEl>)&&!(
+        is_func_ptr_v<T_LhsEl> && is_func_ptr_v<T_RhsEl> &&
+        std::is_assignable_v<T_LhsEl&, T_RhsEl>);
+  };
+
+  template<typename T, typename T_Rhs>
+  constexpr bool tainted_func_ptr_assignment_mismatch_v =
+    tainted_func_ptr_assignment_mismatch<T, T_Rhs>::value;
+}
+
 template<template<typename, typename> typename T_Wrap,
          typename T,
          typename T_Sbx>
@@ -1279,14 +1309,7 @@ public:
     }
     else if_constexpr_named(
       cond_func_ptr,
-      (detail::rlbox_is_tainted_v<T_Rhs> ||
-       detail::rlbox_is_tainted_volatile_v<T_Rhs>)&&(detail::
-                                                       is_func_ptr_v<T> ||
-                                                     detail::is_func_ptr_v<
-                                                       detail::
-                                                         rlbox_remove_wrapper_t<
-                                                           T_Rhs>>)&&!std::
-        is_assignable_v<T&, detail::rlbox_remove_wrapper_t<T_Rhs>>)
+      detail::tainted_func_ptr_assignment_mismatch_v<T, T_Rhs>)
     {
       rlbox_detail_static_fail_because(
         cond_func_ptr,
